@@ -9,15 +9,17 @@ The aggregates themselves (count/sum/min/max/avg by group) are decided by the en
 against the specification (SigModel/Spec/Logs.lean); spec-level algebra is proved below.
 
 Kernel slice "running statistics and their merge" (model SigModel/Model/Stats.lean, tied to the Go code by the
-correspondence suite `stats`): second half of this file.  Decided by proof there, for ALL value lists, under
-exact arithmetic (`rnd = exact`: the rounding latitude the statement grants to floating sums): the folded
-per-column statistics equal the mathematical count / sum / min / max of the numeric values unless the int64
-sum can wrap (guard explicit, wrap branch characterised); merging the statistics of any split, in any
-association and order, gives the statistics of the whole list unless a merged part holds text only
-(`SegStats.Merge` loses IsNumeric: counterexample theorem, guard excludes exactly that class); avg of the
-no-group path divides by the number of NUMERIC values, avg of the group-by bucket by the number of RECORDS
-(counterexample theorem, exact characterisation, partial theorem for dense fields); ingest-time and query-time
-statistics coincide unless a string is a digit-less form such as "-" (counterexample theorem).
+correspondence suite `stats`): second half of this file.  The model mirrors the code with the repairs c04-1..4
+(build/patches, commits pending); the behaviour as found is kept under `…Old` definitions.  Decided by proof there,
+for ALL value lists, under exact arithmetic (`rnd = exact`: the rounding latitude the statement grants to floating
+sums): the folded per-column statistics equal the mathematical count / sum / min / max of the numeric values unless
+the int64 sum can wrap (guard explicit, wrap branch characterised, still a known finding); merging the statistics
+of any split, in any association and order, gives the statistics of the whole list (as found: false when a merged
+part was text-only, `merge_hom_old_counterexample`); avg of the no-group path divides by the number of NUMERIC
+values, avg of the group-by bucket by the number of RECORDS (counterexample theorem, exact characterisation,
+partial theorem for dense fields: still a known finding); ingest-time and query-time statistics coincide on every
+list (as found: not on digit-less strings such as "-", `ingest_stats_old_counterexample`); the group-by min/max
+`Reduce` agrees with `ReduceMinMax` (as found: order dependent, `rb_minmax_order_old_counterexample`).
 -/
 import SigModel.Gen.TimeBucket
 import SigModel.Spec.Logs
@@ -110,12 +112,12 @@ theorem stats_fold_eq_spec (vs : List Val) (h : NoInt64Overflow vs) :
   by_cases h0 : present vs = 0
   · simp [build, h0]
   · rw [build_of_present_pos _ vs h0]
-    have hmin := minCell_isMin (parseStd exact) vs
-    have hmax := maxCell_isMax (parseStd exact) vs
+    have hmin := minCell_isMin (parseFast exact) vs
+    have hmax := maxCell_isMax (parseFast exact) vs
     rw [← numbers_eq] at hmin hmax
     refine ⟨rfl, ?_, ?_, hmin, hmax⟩
     · rw [numbers_eq]; simp [ratVals]
-    · by_cases he : (nums (parseStd exact) vs).isEmpty
+    · by_cases he : (nums (parseFast exact) vs).isEmpty
       · simp only [he, if_true]
         exact (numbers_nil_iff vs).mpr (List.isEmpty_iff.mp he)
       · simp only [he]
@@ -125,19 +127,19 @@ theorem stats_fold_eq_spec (vs : List Val) (h : NoInt64Overflow vs) :
 
 /-- the overflow branch, characterised: as long as no float (or numeric string) has arrived the sum cell is ALWAYS the
 mathematical sum wrapped to int64 — for every list, no guard -/
-theorem stats_fold_int_sum_wraps (vs : List Val) (h : anyFlt (nums (parseStd exact) vs) = false)
-    (hne : nums (parseStd exact) vs ≠ []) :
+theorem stats_fold_int_sum_wraps (vs : List Val) (h : anyFlt (nums (parseFast exact) vs) = false)
+    (hne : nums (parseFast exact) vs ≠ []) :
     ∃ st ns, foldQ exact vs = some st ∧ st.num = some ns ∧
-      ns.sum = .int (wrapS64 (intSum (nums (parseStd exact) vs))) := by
+      ns.sum = .int (wrapS64 (intSum (nums (parseFast exact) vs))) := by
   rw [foldQ_eq_build]
   have h0 : present vs ≠ 0 := by
     intro h0; exact hne (of_present_zero _ vs h0).1
   rw [build_of_present_pos _ vs h0]
-  have he : (nums (parseStd exact) vs).isEmpty = false := by
-    cases hx : nums (parseStd exact) vs with
+  have he : (nums (parseFast exact) vs).isEmpty = false := by
+    cases hx : nums (parseFast exact) vs with
     | nil => exact absurd hx hne
     | cons a r => rfl
-  refine ⟨_, ⟨(nums (parseStd exact) vs).length, sumCell (nums (parseStd exact) vs)⟩, rfl, ?_, sumCell_of_ints _ h⟩
+  refine ⟨_, ⟨(nums (parseFast exact) vs).length, sumCell (nums (parseFast exact) vs)⟩, rfl, ?_, sumCell_of_ints _ h⟩
   simp [he]
 
 /-- … so without the guard C04.1 is false: 2^62 + 2^62 is reported as −2^63 -/
@@ -160,22 +162,22 @@ theorem avg_eq_sum_div_numeric_count (vs : List Val) (h : NoInt64Overflow vs) :
       if numbers vs = [] then none else some (.flt (total (numbers vs) / ((numbers vs).length : Rat))) := by
   rw [foldQ_eq_build]
   by_cases h0 : present vs = 0
-  · have := (of_present_zero (parseStd exact) vs h0).1
+  · have := (of_present_zero (parseFast exact) vs h0).1
     simp [build, h0, derive, (numbers_nil_iff vs).mpr this]
   · rw [build_of_present_pos _ vs h0]
-    by_cases he : (nums (parseStd exact) vs).isEmpty
+    by_cases he : (nums (parseFast exact) vs).isEmpty
     · have hn := List.isEmpty_iff.mp he
       simp [derive, he, (numbers_nil_iff vs).mpr hn]
     · have hne : numbers vs ≠ [] := by
         intro hn; exact he (by rw [(numbers_nil_iff vs).mp hn]; rfl)
-      have hlen : (nums (parseStd exact) vs).length ≠ 0 := by
+      have hlen : (nums (parseFast exact) vs).length ≠ 0 := by
         intro hl; exact he (by rw [List.length_eq_zero_iff.mp hl]; rfl)
-      have hs : (sumCell (nums (parseStd exact) vs)).toRat = total (numbers vs) := by
+      have hs : (sumCell (nums (parseFast exact) vs)).toRat = total (numbers vs) := by
         rw [sumCell_eq_spec _ h, sumSpec_toRat, numbers_eq, total_ratVals]
-      have hnn : nums (parseStd exact) vs ≠ [] := fun hx => hlen (by rw [hx]; rfl)
+      have hnn : nums (parseFast exact) vs ≠ [] := fun hx => hlen (by rw [hx]; rfl)
       simp only [derive, he, hne, if_false, Bool.not_false, if_true, Option.bind, Option.map, avgOf]
       rw [← hs, numbers_length]
-      cases sumCell (nums (parseStd exact) vs) <;> simp [Num.toRat, hnn]
+      cases sumCell (nums (parseFast exact) vs) <;> simp [Num.toRat, hnn]
 
 /-- count(x) of the no-group path is the number of events that have the field -/
 theorem count_eq_present (vs : List Val) :
@@ -184,89 +186,93 @@ theorem count_eq_present (vs : List Val) :
   by_cases h0 : present vs = 0 <;> simp [build, h0, derive]
 
 /-- C04.2 `merge_hom`: the statistics of a concatenation are the merge of the statistics of its two halves, for every
-split — provided the int64 sum cannot wrap and the left half is not "text only while the right half has a number"
-(`NumFirst`; the excluded class is `merge_hom_counterexample`). -/
-theorem merge_hom (xs ys : List Val) (hov : NoInt64Overflow (xs ++ ys)) (hnf : NumFirst (parseStd exact) xs ys) :
+split of every list — provided only that the int64 sum cannot wrap.  (`SegStats.Merge` as FIXED by patch c04-1; for the
+code as found the statement was false: `merge_hom_old_counterexample`.) -/
+theorem merge_hom (xs ys : List Val) (hov : NoInt64Overflow (xs ++ ys)) :
     mergeO exact (foldQ exact xs) (foldQ exact ys) = foldQ exact (xs ++ ys) := by
   rw [foldQ_eq_build, foldQ_eq_build, foldQ_eq_build]
-  exact mergeO_build _ xs ys hov hnf
+  exact mergeO_build _ xs ys hov
 
-/-- the full statement is FALSE on the real merge: `SegStats.Merge` keeps the IsNumeric flag of its receiver, so a
-first part holding only text makes the merged statistics non-numeric although the second part has the number 5;
-GetSegSum / GetSegAvg then refuse to answer (structs/segstructs.go:834-869, segstatsreader.go:437, 625). -/
-theorem merge_hom_counterexample :
+/-- the code AS FOUND (`mergeOOld`): `SegStats.Merge` kept the IsNumeric flag of its receiver, so a first part holding
+only text made the merged statistics non-numeric although the second part has the number 5; GetSegSum / GetSegAvg
+then refused to answer (structs/segstructs.go Merge, segstatsreader.go:437, 625).  Recorded as
+stats/MergeSegStats/first-part-text-only, repaired by patch c04-1. -/
+theorem merge_hom_old_counterexample :
     ¬ (∀ xs ys : List Val, NoInt64Overflow (xs ++ ys) →
-        mergeO exact (foldQ exact xs) (foldQ exact ys) = foldQ exact (xs ++ ys)) := by
+        mergeOOld exact (foldQ exact xs) (foldQ exact ys) = foldQ exact (xs ++ ys)) := by
   intro hall
   have h := hall [.str [97]] [.int 5] (by decide)
-  have h1 : (mergeO exact (foldQ exact [.str [97]]) (foldQ exact [.int 5])).map (·.isNumeric) = some false := by decide
+  have h1 : (mergeOOld exact (foldQ exact [.str [97]]) (foldQ exact [.int 5])).map (·.isNumeric) = some false := by decide
   have h2 : (foldQ exact ([.str [97]] ++ [.int 5])).map (·.isNumeric) = some true := by decide
   rw [h] at h1
   rw [h1] at h2
   exact absurd h2 (by decide)
 
-/-- … with the visible consequence: the split loses sum and avg that the unsplit list reports -/
-theorem merge_loses_sum_example :
-    (derive exact (mergeO exact (foldQ exact [.str [97]]) (foldQ exact [.int 5]))).sum = none ∧
+/-- … with the visible consequence: the old merge lost sum (and avg) that the unsplit list reports; the fixed one keeps it -/
+theorem merge_old_loses_sum_example :
+    (derive exact (mergeOOld exact (foldQ exact [.str [97]]) (foldQ exact [.int 5]))).sum = none ∧
+    (derive exact (mergeO exact (foldQ exact [.str [97]]) (foldQ exact [.int 5]))).sum = some (.int 5) ∧
     (derive exact (foldQ exact [.str [97], .int 5])).sum = some (.int 5) := by
-  constructor <;> decide
+  refine ⟨?_, ?_, ?_⟩ <;> decide
 
-example : NumFirst (parseStd exact) [.int 1, .str [97]] [.int 5] := by right; left; decide
-example : HasNum [.absent] ∧ HasNum [.str [97], .flt 2] ∧ ¬ HasNum [.str [97]] := by decide
-
-/-- merge is commutative on reachable statistics (neither part text-only) -/
-theorem merge_comm (xs ys : List Val) (hov : NoInt64Overflow (xs ++ ys)) (hx : HasNum xs) (hy : HasNum ys) :
+/-- merge is commutative on reachable statistics -/
+theorem merge_comm (xs ys : List Val) (hov : NoInt64Overflow (xs ++ ys)) :
     mergeO exact (foldQ exact xs) (foldQ exact ys) = mergeO exact (foldQ exact ys) (foldQ exact xs) := by
-  rw [merge_hom xs ys hov (hx.numFirst ys), merge_hom ys xs hov.swap (hy.numFirst xs), foldQ_eq_build, foldQ_eq_build]
+  rw [merge_hom xs ys hov, merge_hom ys xs hov.swap, foldQ_eq_build, foldQ_eq_build]
   exact build_comm _ xs ys hov
 
 /-- merge is associative on reachable statistics -/
-theorem merge_assoc (xs ys zs : List Val) (hov : NoInt64Overflow (xs ++ ys ++ zs))
-    (hx : HasNum xs) (hy : HasNum ys) :
+theorem merge_assoc (xs ys zs : List Val) (hov : NoInt64Overflow (xs ++ ys ++ zs)) :
     mergeO exact (mergeO exact (foldQ exact xs) (foldQ exact ys)) (foldQ exact zs) =
       mergeO exact (foldQ exact xs) (mergeO exact (foldQ exact ys) (foldQ exact zs)) := by
   have hov' : NoInt64Overflow (xs ++ (ys ++ zs)) := by rw [← List.append_assoc]; exact hov
-  rw [merge_hom xs ys hov.left (hx.numFirst ys), merge_hom (xs ++ ys) zs hov ((hx.append hy).numFirst zs),
-    merge_hom ys zs hov'.right (hy.numFirst zs), merge_hom xs (ys ++ zs) hov' (hx.numFirst _), List.append_assoc]
+  rw [merge_hom xs ys hov.left, merge_hom (xs ++ ys) zs hov, merge_hom ys zs hov'.right, merge_hom xs (ys ++ zs) hov',
+    List.append_assoc]
 
 /-- any segmentation: merging the statistics of the parts of ANY split of the events, batch after batch, gives the
 statistics of the unsplit list (with `merge_comm` / `merge_assoc`: in any order and association, i.e. for any
-parallel schedule) — provided no part is text-only -/
-theorem merge_segmentation (ps : List (List Val)) (hov : NoInt64Overflow ps.flatten) (h : ∀ p ∈ ps, HasNum p) :
+parallel schedule) -/
+theorem merge_segmentation (ps : List (List Val)) (hov : NoInt64Overflow ps.flatten) :
     mergeAll ps = foldQ exact ps.flatten := by
   induction ps using snocInd with
   | nil => rfl
   | append_singleton ps p ih =>
     have hfl : (ps ++ [p]).flatten = ps.flatten ++ p := by simp
     rw [hfl] at hov ⊢
-    have hps : ∀ q ∈ ps, HasNum q := fun q hq => h q (List.mem_append_left _ hq)
-    rw [mergeAll_snoc, ih hov.left hps]
-    exact merge_hom _ _ hov ((hasNum_flatten ps hps).numFirst p)
+    rw [mergeAll_snoc, ih hov.left]
+    exact merge_hom _ _ hov
 
-/-- C04.4 `ingest_stats_eq_query_stats`: the ingest-time adders (what the .sst fast path serves) and the query-time
-adders leave the SAME statistics on the same values — numeric strings included — unless some string is a digit-less
-form that FastParseFloat takes for a number ("-", "+", ".", "e5", …: `ingest_stats_counterexample`). -/
-theorem ingest_stats_eq_query_stats (vs : List Val) (h : NoDigitlessForm vs) : foldI exact vs = foldQ exact vs := by
+/-- C04.4 `ingest_stats_eq_query_stats`: the ingest-time adders (what the .sst fast path and unrotated segments serve)
+and the query-time adders leave the SAME statistics on the same values, for EVERY list — numeric strings included.
+(Code as FIXED by patches c04-2 and c04-4: both paths use FastParseFloat, which now wants a mantissa digit.) -/
+theorem ingest_stats_eq_query_stats (vs : List Val) : foldI exact vs = foldQ exact vs := by
   rw [foldI_eq_build, foldQ_eq_build]
-  exact build_congr _ _ vs (fun s hs => parseFast_eq_parseStd s (h s hs))
 
-/-- the excluded class is real: the single value "-" (45) is a NUMBER (0) for the ingest-time statistics and text for
-the query-time statistics (utils/numutils.go:29-104 accepts an empty digit string; packer.go:1631) -/
-theorem ingest_stats_counterexample : ¬ (∀ vs : List Val, foldI exact vs = foldQ exact vs) := by
+/-- the code AS FOUND: the paths agreed only when no string was a digit-less FastParseFloat form … -/
+theorem ingest_stats_old_partial (vs : List Val) (h : NoDigitlessForm vs) : foldIOld exact vs = foldQOld exact vs := by
+  rw [foldIOld_eq_build, foldQOld_eq_build]
+  exact build_congr _ _ vs (fun s hs => parseFastOld_eq_parseStd s (h s hs))
+
+/-- … and the excluded class was real: the single value "-" (45) was a NUMBER (0) for the ingest-time statistics and text
+for the query-time statistics (utils/numutils.go FastParseFloat accepted an empty digit string; packer.go:1635).
+Recorded as stats/addSegStatsStrIngestion/no-digit-string, repaired by patch c04-2. -/
+theorem ingest_stats_old_counterexample : ¬ (∀ vs : List Val, foldIOld exact vs = foldQOld exact vs) := by
   intro hall
   have h := hall [.str [45]]
-  have h1 : (foldI exact [.str [45]]).map (·.isNumeric) = some true := by decide
-  have h2 : (foldQ exact [.str [45]]).map (·.isNumeric) = some false := by decide
+  have h1 : (foldIOld exact [.str [45]]).map (·.isNumeric) = some true := by decide
+  have h2 : (foldQOld exact [.str [45]]).map (·.isNumeric) = some false := by decide
   rw [h] at h1
   rw [h1] at h2
   exact absurd h2 (by decide)
 
-/-- the two string rules compute the same VALUE on everything FastParseFloat scans; they differ only in accepting the
-digit-less forms -/
+/-- the string rules: the fixed FastParseFloat is strconv.ParseFloat on the decimal alphabet (same strings, same value);
+the old one computed the same VALUE on everything it scanned but also accepted the digit-less forms -/
 theorem numeric_string_rules (s : Str) :
-    (HasMantissaDigit s → parseFast exact s = parseStd exact s) ∧
-    (∀ d, scanDec s = some d → d.ip = [] ∧ d.fp = [] → (parseFast exact s).isSome = true ∧ parseStd exact s = none) :=
-  ⟨parseFast_eq_parseStd s, fun d hs h0 => parse_differ_of_no_digit s d hs h0⟩
+    parseFast exact s = parseStd exact s ∧
+    (HasMantissaDigit s → parseFastOld exact s = parseStd exact s) ∧
+    (∀ d, scanDec s = some d → d.ip = [] ∧ d.fp = [] →
+      (parseFastOld exact s).isSome = true ∧ parseStd exact s = none ∧ parseFast exact s = none) :=
+  ⟨parseFast_eq_parseStd s, parseFastOld_eq_parseStd s, fun d hs h0 => parse_differ_of_no_digit s d hs h0⟩
 
 example : NoDigitlessForm [.str [49, 50], .str [51, 46, 53], .str [97, 98], .int 3, .absent] := by
   intro s hs
@@ -328,14 +334,27 @@ theorem rb_merge_hom_count_sum (xs ys : List Val) (h : absIntSum (nums noParse (
       (foldRB exact (xs ++ ys)).map (fun b => (b.n, b.sum)) :=
   mergeRB_n_sum xs ys h
 
-/-- the group-by bucket's min / max over a measure field of mixed type depend on the ORDER of the events: once the cell
-holds a string, `sutils.Reduce` rejects every number (aggutils.go:27-87 returns an error for a string e1, ProcessReduce
-keeps the cell), while a number that came first beats every later string -/
-theorem rb_minmax_order_counterexample :
-    (foldRB exact [.str [97], .int 5]).map (·.min) = some (.str [97]) ∧
+/-- the code AS FOUND (`foldRBOld` / `mergeRBOld`): the group-by bucket's min / max over a measure field of mixed type
+depended on the ORDER of the events: once the cell held a string, `sutils.Reduce` rejected every number
+(aggutils.go returned an error for a string e1, ProcessReduce kept the cell), while a number that came first beat every
+later string.  Recorded as stats/groupby-minmax/text-before-number, repaired by patch c04-3. -/
+theorem rb_minmax_order_old_counterexample :
+    (foldRBOld exact [.str [97], .int 5]).map (·.min) = some (.str [97]) ∧
+    (foldRBOld exact [.int 5, .str [97]]).map (·.min) = some (.int 5) ∧
+    (mergeRBOld exact (foldRBOld exact [.str [97]]) (foldRBOld exact [.int 5])).map (·.max) = some (.str [97]) ∧
+    (mergeRBOld exact (foldRBOld exact [.int 5]) (foldRBOld exact [.str [97]])).map (·.max) = some (.int 5) := by
+  decide
+
+/-- the fixed `Reduce` never fails on these cells and agrees with `ReduceMinMax` (the rule of the no-group path) on every
+pair of cells a bucket can hold — so the number wins whichever comes first -/
+theorem rb_reduce_fixed (isMin : Bool) (a b : CV) (hb : b ≠ .invalid) :
+    reduceMM exact isMin a b = some (reduceMinMax exact isMin a b) := by
+  cases a <;> cases b <;> simp_all [reduceMM, reduceMinMax]
+
+example :
+    (foldRB exact [.str [97], .int 5]).map (·.min) = some (.int 5) ∧
     (foldRB exact [.int 5, .str [97]]).map (·.min) = some (.int 5) ∧
-    (mergeRB exact (foldRB exact [.str [97]]) (foldRB exact [.int 5])).map (·.max) = some (.str [97]) ∧
-    (mergeRB exact (foldRB exact [.int 5]) (foldRB exact [.str [97]])).map (·.max) = some (.int 5) := by
+    (mergeRB exact (foldRB exact [.str [97]]) (foldRB exact [.int 5])).map (·.max) = some (.int 5) := by
   decide
 
 end SigModel.Props.C04
